@@ -8,8 +8,10 @@ use std::time::Instant;
 
 pub fn run_miri(seed: u64, default_seeds: u64, out: &mut ExtraResult) {
     let dir = std::env::var("VERIF_DIR").unwrap_or_else(|_| "/verif".into());
-    let miri_dir = format!("{dir}/miri");
-    let _ = std::fs::copy("/repo/Cargo.lock", format!("{miri_dir}/Cargo.lock"));
+    let miri_dir = std::env::var("WF_MIRI_DIR").unwrap_or_else(|_| format!("{dir}/miri"));
+    let repo = std::env::var("WF_REPO").unwrap_or_else(|_| "/repo".into());
+    let miri_target = std::env::var("WF_MIRI_TARGET").unwrap_or_else(|_| format!("{dir}/target/miri"));
+    let _ = std::fs::copy(format!("{repo}/Cargo.lock"), format!("{miri_dir}/Cargo.lock"));
     let nseeds: u64 = std::env::var("VERIF_MIRI_SEEDS").ok().and_then(|s| s.parse().ok()).unwrap_or(default_seeds);
     let t0 = Instant::now();
     let mut ok_runs = 0u64;
@@ -26,7 +28,7 @@ pub fn run_miri(seed: u64, default_seeds: u64, out: &mut ExtraResult) {
             .args(["+nightly", "miri", "run", "--offline", "--", &variant.to_string()])
             .current_dir(&miri_dir)
             .env("MIRIFLAGS", &flags)
-            .env("CARGO_TARGET_DIR", format!("{dir}/target/miri"))
+            .env("CARGO_TARGET_DIR", &miri_target)
             .env("CARGO_NET_OFFLINE", "true")
             .output();
         let res = match res {
@@ -63,7 +65,7 @@ pub fn run_miri(seed: u64, default_seeds: u64, out: &mut ExtraResult) {
                 Some(s) => format!("-Zmiri-seed={s}"),
                 None => format!("-Zmiri-many-seeds={lo}..{hi}"),
             };
-            let cmd = format!("cd {miri_dir} && CARGO_TARGET_DIR={dir}/target/miri MIRIFLAGS='{seed_flag} -Zmiri-preemption-rate=0.1' cargo +nightly miri run --offline -- {variant}; test $? -eq 0");
+            let cmd = format!("cd {miri_dir} && CARGO_TARGET_DIR={miri_target} MIRIFLAGS='{seed_flag} -Zmiri-preemption-rate=0.1' cargo +nightly miri run --offline -- {variant}; test $? -eq 0");
             out.violations.push((
                 Violation::new("C18/miri", class, first_err.clone()),
                 json!({"format": 1, "property": "C18", "engine": "miri", "miri_seed": failing_seed, "variant": variant, "cmd": cmd,
